@@ -337,6 +337,10 @@ def _mk_instance(cls, params, fixed, given=None, order=0):
         return cls(**vals, **fx)
     if order == 1:
         return cls(**fx, **vals)
+    if order == 3:
+        # every free parameter explicitly declared NOT fixed (`f_<q>=None`, the documented default) next to its value
+        free = {"f_" + params[q]: None for q in range(len(params)) if q not in fixed}
+        return cls(**vals, **fx, **free)
     return cls(*[S("arg", p) for p in given], **fx)
 
 
@@ -413,7 +417,7 @@ def ctor_rows():
         k = len(params)
         full = list(range(k))
         for F in subsets(k):
-            for given, order in ((full, 0), (full, 1), (full, 2), ([], 0)):
+            for given, order in ((full, 0), (full, 1), (full, 2), (full, 3), ([], 0)):
                 row = {"fam": name, "given": given, "fixed": F, "order": order, "result": None, "exc": None}
                 try:
                     inst = _mk_instance(cls, params, F, given, order)
